@@ -9,6 +9,13 @@ import os
 import sys
 
 HINT = {
+  'j': ("look for what it is least likely to exercise while still being squarely inside the property statement: LIFECYCLE edges (Close or "
+        "shutdown while something is in flight or being opened, a second Close, Close before Open, use after Close, a client closed by its "
+        "owner while a notification is being delivered), ALIASING (a dict, list or message object passed by reference and modified later by "
+        "its owner or by the callee; a headers/properties dict reused for two requests; an iterator or generator consumed twice), the sink "
+        "stack discipline (push / pop order, a sink that pops twice or not at all on one path), and DEFAULT / OPTIONAL parameters (a keyword "
+        "omitted, None passed explicitly, an empty list or empty string where a value is usual). The change should look like routine "
+        "maintenance (refactoring, tidying, a micro-optimisation, an added convenience)."),
   'i': ("look for what it is least likely to exercise while still being squarely inside the property statement: Python and gevent "
         "MECHANICS rather than domain logic - an exception swallowed (or let through) by a broadened / narrowed `except`, a `finally` or "
         "cleanup path that returns early, a mutable default argument or closure variable captured by reference in a loop, a collection "
